@@ -76,7 +76,7 @@ func init() { register(c07{}) }
 func (c07) ID() string    { return "C07" }
 func (c07) Level() string { return "exploration" }
 func (c07) Rule() string {
-	return "one case = 2..4 configurations (+passthrough) + 1..3 client tasks x 1..4 requests chosen to discriminate the states in play + 1..2 operator tasks x 1..4 operations (Reconfigure(c_i), Reconfigure(nil), Reconfigure(invalid), SetDebug, Config, Reconfigure(Config())) + re-entrant operator calls from inside Header()/WriteHeader()/the wrapped handler + a schedule: default task order and 0..4 burst preemptions placed uniformly over the measured schedule points of a victim operation (statement granularity inside package cors); the recorded history is checked for linearizability against the sequential real code; distinct = distinct plan hash; non-trivial = at least one context switch happened inside an operation or a re-entrant call executed"
+	return "one case = 2..4 configurations (+passthrough) + 1..3 client tasks x 1..4 requests chosen to discriminate the states in play + 1..2 operator tasks x 1..4 operations (Reconfigure(c_i), Reconfigure(nil), Reconfigure(invalid), SetDebug, Config, Reconfigure(Config())) + re-entrant operator calls from inside Header()/WriteHeader()/the wrapped handler + a schedule: default task order and 0..4 burst preemptions placed uniformly over the measured schedule points of a victim operation (statement granularity inside package cors); every fourth run belongs to an enumerating SWEEP block (192 runs sharing one small scenario, run i preempting the victim operation at its i-th schedule point with the other party acting there, plus a follow-up request and Config()); requests go through long-lived and fresh wrapped handlers; unknown bool options of a changed tree are switched on at random; the recorded history is checked for linearizability against the sequential real code; distinct = distinct plan hash; non-trivial = at least one context switch happened inside an operation or a re-entrant call executed"
 }
 func (c07) Budget(tier string) (int, time.Duration) {
 	if tier == "thorough" {
